@@ -146,6 +146,11 @@ func templateFacts(src, name string) (locals, imports, funcs []string, text stri
 		}
 	}
 	// `for i, a := range` / `if x, ok :=` are covered by reShortDecl; `var rIDX T` declares r0, r1, …
+	if set["argACTION"] {
+		// `var arg{{$i}} T` declares arg0, arg1, …
+		delete(set, "argACTION")
+		set["argIDX"] = true
+	}
 	delete(set, "ACTION")
 	delete(set, "RETARGS")
 	delete(set, "_")
